@@ -179,20 +179,26 @@ func (r *ctlRun) dump(out *stepOut) {
 	d := r.c.VerifDump()
 	out.Regions = make([][]any, 0, len(d))
 	for _, vr := range d {
+		// gates in precedence order of open (by position, never the absolute value)
+		sort.Slice(vr.Gates, func(a, b int) bool {
+			if vr.Gates[a].Position != vr.Gates[b].Position {
+				return vr.Gates[a].Position < vr.Gates[b].Position
+			}
+			return vr.Gates[a].Subject < vr.Gates[b].Subject
+		})
 		gs := make([][]int, 0, len(vr.Gates))
 		for _, g := range vr.Gates {
-			gs = append(gs, []int{subjNum(g.Subject), int(g.Authority), int(g.Position)})
+			gs = append(gs, []int{subjNum(g.Subject), int(g.Authority)})
 		}
-		sort.Slice(gs, func(a, b int) bool { return gs[a][2] < gs[b][2] })
 		curr := []int{}
 		if vr.HasCurr {
 			in := 0
 			if vr.CurrInGates {
 				in = 1
 			}
-			curr = []int{subjNum(vr.Curr.Subject), int(vr.Curr.Authority), int(vr.Curr.Position), in}
+			curr = []int{subjNum(vr.Curr.Subject), int(vr.Curr.Authority), in}
 		}
-		out.Regions = append(out.Regions, []any{vr.Start, vr.End, int(vr.Counter), int(vr.Resource), curr, gs})
+		out.Regions = append(out.Regions, []any{vr.Start, vr.End, int(vr.Resource), curr, gs})
 	}
 }
 
